@@ -531,12 +531,11 @@ def _entries_are_identical(
         b: Sequence[Any] | Mapping[str, Any]) -> bool:
     if isinstance(a, Mapping):
         assert isinstance(b, Mapping)
+        # Compare by key: the two mappings may have been filled in different
+        # orders (e.g. a mapper iterating over the sorted items).
         return (
             a.keys() == b.keys()
-            and all(
-                b_k is a_k
-                for a_k, b_k in zip(
-                    a.values(), b.values(), strict=True)))
+            and all(b[key] is a_k for key, a_k in a.items()))
     else:
         return len(a) == len(b) and all(
             b_i is a_i
